@@ -158,6 +158,51 @@ func OpenCluster(ctx context.Context, r *prng.R, p ClusterParams) (*Cluster, err
 	}
 }
 
+// AddNode opens one more node (index i = len(c.Nodes)) that joins through node 1. It
+// does not wait for the membership views to converge (WaitMembership does) and does not
+// touch c.Nodes, so clients may keep running; call Attach afterwards.
+func (c *Cluster) AddNode(ctx context.Context, i int) (*Node, error) {
+	n := &Node{Idx: i, Addr: address.Newf("node%d:0", i+1), Eng: memkv.New()}
+	octx, cancel := context.WithTimeout(ctx, 30*time.Second)
+	defer cancel()
+	// inbound messages are refused until Open has returned, as with a real transport
+	c.Net.SetDown(n.Addr, true, false)
+	db, err := aspen.Open(octx, "", n.Addr, []address.Address{c.Nodes[0].Addr}, c.opts(n, false)...)
+	if err != nil {
+		_ = n.Eng.Close()
+		return nil, err
+	}
+	c.Net.SetDown(n.Addr, false, false)
+	n.DB, n.Up, n.Key = db, true, uint32(db.Cluster.HostKey())
+	return n, nil
+}
+
+// Attach registers a node opened by AddNode.
+func (c *Cluster) Attach(n *Node) {
+	c.Nodes = append(c.Nodes, n)
+	c.P.Nodes = len(c.Nodes)
+}
+
+// WaitMembership polls until every up node's view has all nodes.
+func (c *Cluster) WaitMembership(timeout time.Duration) bool {
+	deadline := time.Now().Add(timeout)
+	for {
+		ok := true
+		for _, n := range c.Nodes {
+			if n.Up && len(n.DB.Cluster.Nodes()) != len(c.Nodes) {
+				ok = false
+			}
+		}
+		if ok {
+			return true
+		}
+		if time.Now().After(deadline) {
+			return false
+		}
+		time.Sleep(2 * time.Millisecond)
+	}
+}
+
 func (c *Cluster) Close() error {
 	var first error
 	for _, n := range c.Nodes {
